@@ -98,6 +98,17 @@ CHECKS.update({
         design="8 C09"),
 })
 
+CHECKS.update({
+    "C13": dict(
+        text="Contract proof per handler per path of AstToODataVisitor: the symbolic template is read with the OData grammar (precedence of C05, "
+             "left-associative binaries so right operands must bind strictly tighter, (x,) for singleton lists, doubled quotes): well-formed, "
+             "tree(r) = t, operand side conditions by z3, promised strength; identifiers / paths / calls / lambdas against their exact token "
+             "shapes. parse(render t) = t then follows relative to C05/C06, and with it the one-step fixpoint.",
+        note="The OData reader is the grammar whose implementation is proved/assumed in C05/C06 (SLY driver, re semantics); reader soundness assumed.",
+        technique="contracts + symbolic templates parsed by a Pratt reader with holes (OData grammar); side conditions by z3",
+        design="8 C13"),
+})
+
 NOT_APPLICABLE = {
     "C02": "the rows a Django QuerySet returns are decided by Django's SQL compiler and SQLite, not by any function in /repo; no contract on repo code can express it (DESIGN section 9)",
     "C03": "row semantics are decided by SQLAlchemy's compiler (operator rendering, contains escaping, boolean rendering) and SQLite (DESIGN section 9)",
